@@ -1,6 +1,7 @@
 package main
 
 import (
+	"bytes"
 	"context"
 	"fmt"
 	"runtime"
@@ -47,6 +48,7 @@ type c18Case struct {
 	StringKey string `json:"string_key_func,omitempty"`
 	N         int    `json:"keys"`
 	SmallDom  bool   `json:"key_domain_exhausted,omitempty"`
+	Persist   bool   `json:"also_after_a_save_load_round_trip,omitempty"`
 }
 
 // goAtLeast reports whether the running toolchain is go1.minor or newer.
@@ -169,6 +171,53 @@ func c18Run[K comparable](r *Run, cs c18Case, mk func(i, path int) K, strKey fun
 	if still > 0 {
 		fail("delete-through-equal-key-ineffective", fmt.Sprintf("%d keys deleted through an equal key built along another path are still readable", still), map[string]any{})
 	}
+	// the same after a SaveCache / LoadCache round trip (entries that were written and never read included): the
+	// restored entries must be found through equal keys, a Set through an equal key must not create a second entry
+	if cs.Persist {
+		var buf bytes.Buffer
+		b2 := theine.NewBuilder[K, int](int64(cs.N * 4))
+		if strKey != nil {
+			b2 = b2.StringKey(strKey)
+		}
+		c2, err2 := b2.Build()
+		if err := c.SaveCache(1, &buf); err != nil || err2 != nil {
+			r.Count("round_trips_skipped", 1)
+		} else if err := c2.LoadCache(1, &buf); err != nil {
+			fail("loadcache-failed", fmt.Sprintf("LoadCache of an undamaged stream returned %v", err), map[string]any{})
+		} else {
+			want := c.Len()
+			miss2 := 0
+			var firstMiss2 string
+			for i := 0; i < cs.N; i++ {
+				if i%5 == 0 {
+					continue // deleted above
+				}
+				dirtyStack(byte(i))
+				if v, ok := c2.Get(mk(i, 1+i%3)); !ok || v != i*31+7 {
+					miss2++
+					if firstMiss2 == "" {
+						firstMiss2 = fmt.Sprintf("key #%d (%v): Get = (%d, %v), stored %d", i, mk(i, 1), v, ok, i*31+7)
+					}
+				}
+			}
+			if miss2 > 0 {
+				fail("equal-key-missed/after-save-load-round-trip", fmt.Sprintf("%d of the restored keys are not found (or found with another value) through an equal key although Len() = %d of %d saved (first: %s)", miss2, c2.Len(), want, firstMiss2), map[string]any{"missed": miss2})
+			}
+			for i := 1; i < cs.N; i += 7 {
+				if i%5 != 0 {
+					c2.Set(mk(i, 2), i*31+7, 1)
+				}
+			}
+			c2.Wait()
+			if l := c2.Len(); l != want {
+				fail("equal-key-created-second-entry/after-save-load-round-trip", fmt.Sprintf("re-Setting restored keys through equal keys changed Len() from %d to %d", want, l), map[string]any{})
+			}
+			r.Count("round_trips_judged", 1)
+		}
+		if c2 != nil {
+			c2.Close()
+		}
+	}
 	// stable hash (=> shard) for the life of the cache
 	runtime.GC()
 	changed := 0
@@ -233,7 +282,9 @@ func runC18(r *Run) {
 	if v := mustAtoi(r.Args["n"], 0); v > 0 {
 		n = v
 	}
-	cs := func(t string, pad bool) c18Case { return c18Case{Type: t, Padding: pad, N: n} }
+	cs := func(t string, pad bool) c18Case {
+		return c18Case{Type: t, Padding: pad, N: n, Persist: !strings.HasPrefix(t, "*") && !strings.Contains(t, "interface")}
+	}
 	// integers of every width, zero and extreme values included (i=0 => zero value)
 	c18Run[int](r, cs("int", false), func(i, p int) int { return launder(i*i + i + (p - p)) }, nil, true)
 	c18Run[int8](r, c18Case{Type: "int8", N: 200, SmallDom: true}, func(i, p int) int8 { return launder(int8(i - 100 + p - p)) }, nil, true)
@@ -290,11 +341,11 @@ func runC18(r *Run) {
 		return launder(kNested{kPair{uint32(i), 1}, [3]int16{int16(i), -1, int16(i >> 8)}, i%2 == 0, uint8(i)})
 	}, nil, true)
 	// any type with a StringKey function (claimed on every toolchain)
-	c18Run[kPadded](r, c18Case{Type: "struct with padding + StringKey", Padding: true, StringKey: "fmt of the fields", N: n / 4}, func(i, p int) kPadded {
+	c18Run[kPadded](r, c18Case{Type: "struct with padding + StringKey", Padding: true, StringKey: "fmt of the fields", N: n / 4, Persist: true}, func(i, p int) kPadded {
 		dirtyStack(byte(i*13 + p))
 		return launder(kPadded{uint8(i), uint64(i) * 1000003, uint16(i >> 3)})
 	}, func(k kPadded) string { return fmt.Sprintf("%d/%d/%d", k.A, k.B, k.C) }, false)
-	c18Run[kWithStr](r, c18Case{Type: "struct{int;string} + StringKey", StringKey: "id:name", N: n / 4}, func(i, p int) kWithStr {
+	c18Run[kWithStr](r, c18Case{Type: "struct{int;string} + StringKey", StringKey: "id:name", N: n / 4, Persist: true}, func(i, p int) kWithStr {
 		return kWithStr{ID: i, Name: string([]byte("name-" + strconv.Itoa(i)))}
 	}, func(k kWithStr) string { return strconv.Itoa(k.ID) + ":" + k.Name }, false)
 	// forced full collision: every key hashes alike, the shard map must still tell them apart
@@ -319,6 +370,9 @@ func runC18(r *Run) {
 		}
 		return kWithStr{ID: i, Name: strings.TrimSpace(string([]byte("  ")))}
 	}, func(k kWithStr) string { return k.Name }, false)
+	// different keys must never observe each other's values while loads of neighbour keys start, are joined and
+	// finish all the time (c01.go: round-synchronised and free-running storm on the keys of one shard)
+	c01Storm(r, 1000)
 	c18Concurrent(r, "loading", n/8)
 	c18Concurrent(r, "hybrid", n/8)
 	c18Concurrent(r, "hybrid-loading", n/8)
